@@ -104,8 +104,13 @@ impl PlainYearMonth {
             Unit::Month,
         )?;
 
+        // NOTE: Steps 7-12 set the day to 1: the difference is measured between the firsts of the
+        // months, whatever reference day the two values carry.
+        let this_iso = IsoDate::new_unchecked(self.iso.year, self.iso.month, 1);
+        let other_iso = IsoDate::new_unchecked(other.iso.year, other.iso.month, 1);
+
         // 6. If CompareISODate(yearMonth.[[ISODate]], other.[[ISODate]]) = 0, then
-        if self.iso == other.iso {
+        if this_iso == other_iso {
             // a. Return ! CreateTemporalDuration(0, 0, 0, 0, 0, 0, 0, 0, 0, 0).
             return Ok(Duration::default());
         }
@@ -120,7 +125,7 @@ impl PlainYearMonth {
         // 14. Let yearsMonthsDifference be ! AdjustDateDurationRecord(dateDifference, 0, 0).
         let result = self
             .calendar()
-            .date_until(&self.iso, &other.iso, resolved.largest_unit)?;
+            .date_until(&this_iso, &other_iso, resolved.largest_unit)?;
 
         // 15. Let duration be CombineDateAndTimeDuration(yearsMonthsDifference, 0).
         let mut duration = NormalizedDurationRecord::from_date_duration(*result.date())?;
@@ -128,9 +133,9 @@ impl PlainYearMonth {
         // 16. If settings.[[SmallestUnit]] is not month or settings.[[RoundingIncrement]] ≠ 1, then
         if resolved.smallest_unit != Unit::Month || resolved.increment != RoundingIncrement::ONE {
             // a. Let isoDateTime be CombineISODateAndTimeRecord(thisDate, MidnightTimeRecord()).
-            let iso_date_time = IsoDateTime::new_unchecked(self.iso, IsoTime::default());
+            let iso_date_time = IsoDateTime::new_unchecked(this_iso, IsoTime::default());
             // b. Let isoDateTimeOther be CombineISODateAndTimeRecord(otherDate, MidnightTimeRecord()).
-            let target_iso_date_time = IsoDateTime::new_unchecked(other.iso, IsoTime::default());
+            let target_iso_date_time = IsoDateTime::new_unchecked(other_iso, IsoTime::default());
             // c. Let destEpochNs be GetUTCEpochNanoseconds(isoDateTimeOther).
             let dest_epoch_ns = target_iso_date_time.as_nanoseconds()?;
             // d. Set duration to ? RoundRelativeDuration(duration, destEpochNs, isoDateTime, unset, calendar, resolved.[[LargestUnit]], resolved.[[RoundingIncrement]], resolved.[[SmallestUnit]], resolved.[[RoundingMode]]).
